@@ -459,10 +459,8 @@ func cmdCorr3(seed uint64, n int, exh int) {
 		metas = append(metas, "P\t"+hx.Hex(d))
 	}
 	for _, d := range genC3Inputs(r, n) {
-		if len(d) < 8 || string(d[4:8]) != "meta" { // meta: only its encoder pair is modelled (M line)
-			jobs = append(jobs, job{kind: "C3", cfg: "-", data: d})
-			metas = append(metas, "C\t"+hx.Hex(d))
-		}
+		jobs = append(jobs, job{kind: "C3", cfg: "-", data: d})
+		metas = append(metas, "C\t"+hx.Hex(d))
 		jobs = append(jobs, job{kind: "M3", cfg: "-", data: d})
 		metas = append(metas, "M\t")
 	}
